@@ -4,7 +4,7 @@ from harness.oracles import all as ALL
 
 ID = 'C04'
 UNITS = ['match_events', 'event_metrics', 'note_matching', 'transcription_scores', 'melody_metrics', 'multipitch_metrics', 'multipitch_resample', 'key_score', 'pattern_scores', 'alignment_scores', 'tempo_detection', 'beat_q', 'beat_ig', 'melody_resample', 'beat_ig_num']
-TRANSLATORS = ['defaults', 'tables', 'scalarfuncs', 'vecfuncs', 'wrapfuncs', 'beatfuncs', 'patternfuncs', 'notefuncs', 'corefuncs']
+TRANSLATORS = ['defaults', 'tables', 'scalarfuncs', 'vecfuncs', 'wrapfuncs', 'beatfuncs', 'patternfuncs', 'notefuncs', 'corefuncs', 'framefuncs']
 NOT_COVERED = 'Partial: Goto and continuity are their own (procedural) definitions (now tied by translation, BeatTie*.v); P-score and the information-gain histogram are tied by correspondence only; the Gaussian of Cemgil is an arbitrary function g with 0 <= g <= 1, g 0 = 1; the entropy of information gain is a Reals formula (K-L divergence from uniform) tied numerically inside Coq; default values are tied by the translator (defaults_as_documented).'
 ASSUMPTIONS = ['exact-arithmetic lattices for the correspondence (DESIGN.md section 2.1); NumPy/SciPy primitives as modelled per module']
 
